@@ -52,12 +52,12 @@ CHECKS = {
    text="Failures, exceptions and time-step reductions are injected at chosen behaviour calls (incl. nested); the result file must agree, at every accepted time, with a fault-free run performed directly with the accepted steps.",
    note="Comparison within 100x the convergence criteria in general, bitwise on dyadic time grids (strict mode).",
    design="§3 C50"),
- "C08": dict(ready=False, level="fault_enumeration", engine="callback-fault",
+ "C08": dict(ready=True, level="fault_enumeration", engine="callback-fault",
    technique="fault enumeration at the residual-callback seam of the real solver templates (failure/NaN/inf at chosen evaluations), invariant over the recorded evaluation history, UBSan",
    text="All subsets of <=3 faulty evaluations among the first iterMax+2 are enumerated per solver, size and system family; success must imply a fault-free, finite, criterion-meeting last evaluation at the returned unknowns; iter <= iterMax always; after the last fault affine systems converge.",
    note="Only the fault clauses of C08 are decided; 'Newton converges inside its basin' is covered only as bounded liveness after faults stop on affine systems.",
    design="§3 C08"),
- "C09": dict(ready=False, level="fault_enumeration", engine="callback-fault",
+ "C09": dict(ready=True, level="fault_enumeration", engine="callback-fault",
    technique="fault enumeration at the function/criterion callback seam of the real scalarNewtonRaphson (NaN/inf values, zero/NaN derivatives at chosen evaluations), invariant over the recorded call history",
    text="Faults are enumerated over evaluation indices for a family of scalar functions with and without valid brackets; convergence claims, iteration budget and bracket confinement are checked on the call history.",
    note="Only the fault clauses of C09 are decided.",
